@@ -217,6 +217,24 @@ def run_unit(unit, workdir):
     return res, infos, text
 
 
+def _default_natives(file_spec):
+    """end-to-end executable contracts that exercise the code of a source file (used for functions no contract lists)"""
+    f = file_spec or ""
+    if f.startswith("src/oplog") or "manifest" in f:
+        return ["e2e.list_model", "oplog.open_js_layout", "e2e.crash_prefixes"]
+    if f.startswith("src/storage") or f.startswith("src/data") or f.endswith("common/store.rs"):
+        return ["e2e.list_model", "e2e.fault_injection"]
+    if f.startswith("src/bitfield"):
+        return ["bitfield.ranges", "e2e.list_model", "e2e.list_model_pages"]
+    if f.startswith("src/tree") or f.startswith("src/crypto") or f.endswith("common/node.rs"):
+        return ["proofs.honest_replication", "merkle.reference_tree", "e2e.list_model", "proofs.altered_proofs_refused"]
+    if f.startswith("src/replication"):
+        return ["e2e.events"]
+    if f.endswith("src/encoding.rs") or f == "src/encoding.rs":
+        return ["codec.wire_reference", "e2e.list_model", "oplog.open_js_layout"]
+    return ["e2e.list_model", "proofs.honest_replication", "e2e.read_only_hygiene"]
+
+
 def load_known():
     p = os.path.join(VERIF, "known_findings.json")
     if not os.path.exists(p):
@@ -318,13 +336,23 @@ def report(prop, tier, seed, results, wall, pm):
             if prop in fr["info"].tags and fr["status"] == "undecided":
                 und_fns.append((res["unit"], fr))
     if und_fns and os.environ.get("HV_NO_NATIVE") != "1":
-        sels = sorted(set("fn:" + fr["info"].name for _, fr in und_fns))
+        sels = set("fn:" + fr["info"].name for _, fr in und_fns)
+        # functions that no contract names in its `covers` list are still exercised by the end-to-end contracts of their
+        # source file: those are run as well (a failing input on the real code is a violation whatever function is named)
+        cover0 = _native.covers()
+        named = set(x for v in cover0.values() for x in v)
+        dflt = {}
+        for _, fr in und_fns:
+            if fr["info"].name not in named:
+                dflt[fr["info"].name] = _default_natives(fr["info"].file)
+                sels.update(dflt[fr["info"].name])
+        sels = sorted(sels)
         nres = _native.run_search(sels, seed, 300, timeout=3000)
         failing = {k: v[1] for k, v in nres.items() if isinstance(v, tuple) and v[0] == "FAIL"}
         if failing:
-            cover = _native.covers()
+            cover = cover0
             for unit, fr in und_fns:
-                hit = [c for c in failing if fr["info"].name in cover.get(c, [])]
+                hit = [c for c in failing if fr["info"].name in cover.get(c, []) or c in dflt.get(fr["info"].name, [])]
                 if not hit:
                     continue
                 f0 = fr["failed"] or [{"obligation": "%s::%s::safety" % (unit, fr["info"].name), "clause": "", "verus_message": "undecided", "at": "", "rendered": ""}]
